@@ -92,6 +92,8 @@ def generate(rng, tier, shard, nshards):
                                  {'mew': 2.5}, {'markeredgewidth': 3.5}, {'fillstyle': 'full', 'markerfacecolor': 'yellow'}, {'fillstyle': 'full', 'markerfacecolor': 'yellow'},
                                  {'fillstyle': 'left', 'markerfacecolor': 'yellow', 'markeredgecolor': 'cyan'}, {'fillstyle': 'full', 'mfc': 'yellow'},
                                  {'markerfacecolor': 'yellow'}, {'fillstyle': 'full', 'mfc': 'yellow', 'mec': 'cyan'}, {'fillstyle': 'full'}])
+            elif cls == 'LinePixelRegion' and rng.random() < 0.4:
+                kw = {'width': rng.choice([0.5, 2.0, 7.0])}        # the arrow's own keyword (matplotlib.patches.Arrow)
             else:
                 kw = rng.choice([{'transform': 'transData'}, {'transform': 'transData', 'linewidth': 2.5}, {'linewidth': None}, {'linestyle': None}, {'edgecolor': None}, {'edgecolor': 'green'}, {'ec': 'green'}, {'fill': True, 'facecolor': 'green'}, {'edgecolor': 'cyan'}, {'linewidth': 7.5}, {'fill': True, 'facecolor': 'yellow'}, {'alpha': 0.25}, {'linestyle': '-.'},
                                  {'ec': 'cyan'}, {'lw': 6.5}, {'ls': '-.'}, {'fill': True, 'fc': 'yellow'}])
@@ -249,6 +251,9 @@ def run_case(case, obs):
         art = reg.plot(origin=origin, ax=_axes(), **kw)
         obs.count('artists-obtained-through-plot')
         # (excluded regions included: how a region is drawn does not depend on its include flag beyond what the visual says)
+    elif case['rs'] % 3 == 2 and case['rs'] % 2 == 0:
+        art = reg.as_artist(origin, **kw)          # the origin is the first positional parameter of the documented signature
+        obs.count('origin-given-positionally')
     else:
         art = reg.as_artist(origin=origin, **kw)
     obs.check(S.fingerprint(reg) == fp0, 'as_artist-mutates-region', f'{cls}.as_artist changed the region', 'region-unchanged')
@@ -358,10 +363,18 @@ def run_case(case, obs):
         sx, sy = reg.start.x - ox, reg.start.y - oy
         ex, ey = reg.end.x - ox, reg.end.y - oy
         length = math.hypot(ex - sx, ey - sy)
+        if 'width' in kw and length > 0:
+            # the caller's arrow width is the arrow's width: the same patch as matplotlib's Arrow built with it
+            from matplotlib.patches import Arrow
+            ref = Arrow(sx, sy, ex - sx, ey - sy, width=kw['width'])
+            rv = ref.get_patch_transform().transform_path(ref.get_path()).vertices
+            same = rv.shape == v.shape and bool(np.allclose(rv, v, rtol=1e-9, atol=1e-9 * (length + abs(sx) + abs(sy))))
+            obs.check(same, 'caller-kwargs-do-not-override', f'LinePixelRegion.as_artist(width={kw["width"]}): the arrow is not the one matplotlib draws for that '
+                      f'width (stored visual {dict(reg.visual)})', 'kwargs-override')
         if length == 0:
             # a line of no extent: the (degenerate) arrow sits on that position, shifted by the plot origin like everything else
             d = float(np.hypot(v[:, 0] - sx, v[:, 1] - sy).max()) if len(v) else float('inf')
-            obs.check(d <= 1.0, 'line-artist-not-start-to-end', f'artist of a zero-length line at ({sx!r}, {sy!r}) (origin ({ox!r}, {oy!r})) has vertices up to '
+            obs.check(d <= max(1.0, 0.6 * float(kw.get('width', 0.1))), 'line-artist-not-start-to-end', f'artist of a zero-length line at ({sx!r}, {sy!r}) (origin ({ox!r}, {oy!r})) has vertices up to '
                       f'{d:.6g} px away from it', 'line')
             return
         # the arrow runs from start to end: extreme projections onto the direction are 0 and the length
@@ -369,7 +382,7 @@ def run_case(case, obs):
         t = (v[:, 0] - sx) * ux + (v[:, 1] - sy) * uy
         w = np.abs(-(v[:, 0] - sx) * uy + (v[:, 1] - sy) * ux)
         tol = 1e-6 * (length + abs(sx) + abs(sy))
-        ok = abs(t.min()) <= tol and abs(t.max() - length) <= tol and w.max() <= max(1.0, 0.5 * length)
+        ok = abs(t.min()) <= tol and abs(t.max() - length) <= tol and w.max() <= max(1.0, 0.5 * length, 0.6 * float(kw.get('width', 0.1)))
         # tail at start (widest part of the shaft base), head tip at end
         tip = v[np.argmax(t)]
         ok = ok and math.hypot(tip[0] - ex, tip[1] - ey) <= tol
